@@ -55,15 +55,22 @@ pub fn parse_files(
     let mut unreadable = Vec::new();
     let mut unparsable = Vec::new();
     while let Some(file_path) = FileStack::take_next(&mut file_stack) {
-        if !file_stack.is_user_input(&file_path) {
-            if let Err(error) = open_file(&file_path) {
-                // A file which was included is reported at the include statements (below, when
-                // all of them are known).
-                unreadable.push((file_path, error));
+        // Every file is read once.
+        let source = match open_file(&file_path) {
+            Ok(source) => source,
+            Err(error) => {
+                if file_stack.is_user_input(&file_path) {
+                    reports.push(*error);
+                } else {
+                    // A file which was included is reported at the include statements (below,
+                    // when all of them are known).
+                    unreadable.push((file_path, error));
+                }
                 continue;
             }
-        }
-        match parse_file(&file_path, &mut file_stack, &mut file_library, compiler_version) {
+        };
+        match parse_source(&file_path, source, &mut file_stack, &mut file_library, compiler_version)
+        {
             Ok((file_id, program, mut warnings)) => {
                 if let Some(main_component) = program.main_component {
                     main_components.push((file_id, main_component, program.custom_gates));
@@ -192,10 +199,19 @@ pub fn parse_file(
     file_library: &mut FileLibrary,
     compiler_version: &Version,
 ) -> Result<(FileID, AST, ReportCollection), Box<Report>> {
-    let mut reports = ReportCollection::new();
-
     debug!("reading file `{}`", file_path.display());
-    let (path_str, file_content) = open_file(file_path)?;
+    let source = open_file(file_path)?;
+    parse_source(file_path, source, file_stack, file_library, compiler_version)
+}
+
+fn parse_source(
+    file_path: &PathBuf,
+    (path_str, file_content): (String, String),
+    file_stack: &mut FileStack,
+    file_library: &mut FileLibrary,
+    compiler_version: &Version,
+) -> Result<(FileID, AST, ReportCollection), Box<Report>> {
+    let mut reports = ReportCollection::new();
     let is_user_input = file_stack.is_user_input(file_path);
     let file_id = file_library.add_file(path_str, file_content.clone(), is_user_input);
 
